@@ -153,8 +153,9 @@ Print Assumptions DSIG_response_end_to_end.
    (adjacent character data merged, empty character data gone, duplicated attributes collapsed).  Premise, on what the
    canonical writer emits ([c14n_wf_elem p]): an element; names the real reader accepts and splits back into the same
    (space, tag); values = valid UTF-8 in the XML Char range -- U+000D INCLUDED, the canonical writer emits "&#xD;" --;
-   comments (the with-comments algorithms keep them) without "--" and not ending in '-'.  Excluded explicitly: processing
-   instructions and directives inside the canonicalised element. *)
+   comments (the with-comments algorithms keep them) without "--" and not ending in '-'; processing instructions (every
+   algorithm keeps them) whose target is a name other than "xml" and whose instruction neither starts with white space nor
+   holds "?>" -- what the reader itself delivers.  Excluded explicitly: directives inside the canonicalised element. *)
 Theorem DSIG_canonical_bytes_reparse_to_prepared_tree : forall a t b,
   canon_model a t = Some b ->
   exists p, canon_prep a t = Some p /\ b = c14n_write p /\
@@ -214,14 +215,15 @@ Proof. exact dsig_sound_reader_first_signature. Qed.
 Print Assumptions DSIG_sound_reader_first_signature.
 
 (* non-vacuity, by vm_compute: an element with shuffled attributes, TAB / '>' / a double quote in a value, U+000D in character
-   data, adjacent character data, a comment and a redundant declaration is read back as its prepared tree under all eight
-   algorithm settings; what the premise excludes is really refused (a comment with "--") or changed (invalid UTF-8 becomes
-   U+FFFD) by the reader; the verifier with both oracles instantiated accepts a signed document and returns the prepared
+   data, adjacent character data, a comment, two processing instructions and a redundant declaration is read back as its
+   prepared tree under all eight algorithm settings; what the premise excludes is really refused (a comment with "--") or
+   changed (invalid UTF-8 becomes U+FFFD; white space in front of an instruction is dropped) by the reader; the verifier with both oracles instantiated accepts a signed document and returns the prepared
    tree (attributes sorted, comment dropped, character data merged, U+000D kept) *)
 Theorem DSIG_reader_examples :
   forallb ReaderExample.reads_back [CExc "" false; CExc "" true; CExc "p x" false; C11 false; C11 true; CRec false; CRec true; CNull] = true /\
   read_tree (c14n_write (Elem "" "a" [] [Comment "x--y"])) = Err syntax_error /\
   read_tree (c14n_write (Elem "" "a" [] [Text (String (byte 255) "")])) = Ok (Elem "" "a" [] [Text repl_char]) /\
+  read_tree (c14n_write (Elem "" "a" [] [ProcInst "pi" " x"])) = Ok (Elem "" "a" [] [ProcInst "pi" "x"]) /\
   dsig_validate_reader ReaderExample.digest_any ReaderExample.sig_ok_sig ReaderExample.no_cert_parser [Example.the_cert] ReaderExample.t150
     ReaderExample.doc2
   = DOk (Elem "" "Root" [Example.A "ID" "x"]
@@ -229,6 +231,7 @@ Theorem DSIG_reader_examples :
 Proof.
   exact (conj ReaderExample.every_algorithm_reads_back
           (conj ReaderExample.comment_with_double_dash_not_read_back
-             (conj ReaderExample.invalid_utf8_not_read_back (proj2 ReaderExample.accepted_tree_is_the_prepared_tree)))).
+             (conj ReaderExample.invalid_utf8_not_read_back
+                (conj ReaderExample.pi_with_leading_space_changed (proj2 ReaderExample.accepted_tree_is_the_prepared_tree))))).
 Qed.
 Print Assumptions DSIG_reader_examples.
